@@ -16,7 +16,7 @@ def plan(ctx, prop):
         cfgs = [2, 6]
         types = [1, 2]
     else:
-        cfgs = [3, 1, 7, 2]
+        cfgs = [3, 1, 7, 2, 9, 17, 27]      # 9: value notifier only, 17: key notifier only, 27: value-only with comparator data
         types = [0, 1, 2]
     jobs = []
     sd = ctx.seed
